@@ -87,6 +87,61 @@ Theorem C17_accepted_text_shape : forall s, is_uuid s = true ->
 Proof. exact accepted_text_shape. Qed.
 Print Assumptions C17_accepted_text_shape.
 
+(* ---- the report is a function of the TEXT: buffers, windows, refills ----
+   Go hands IsUUID / UUIDValue a slice: a window [off, off+len) of a backing array that the caller
+   keeps and refills (a fixed read buffer, the token buffer of a bufio.Scanner).  The model is a
+   function of the bytes of the window by construction; what that means for a caller is stated
+   here on the buffer layer of Model/Base64.v (overwrite off t b = copy(b[off:], t);
+   window off len b = b[off:off+len]; reuse_windows b steps = refill and look, step by step);
+   [uuid_report text] = (IsUUID text, UUIDValue text).  That the IMPLEMENTATION is such a function
+   is what the ops twice / reuse / conc / scan / files / cli of Run/C17.v test: same buffer looked
+   at twice, one array refilled with other texts of equal length (every transition between
+   versions, letter cases, forms, non-UUIDs), several goroutines, bufio.Scanner, files in turn. *)
+
+(* a window of an array shows the callee exactly the text, whatever surrounds it *)
+Theorem C17_pure_window : forall pre t post,
+  uuid_report (Model.Base64.window (length pre) (length t) (pre ++ t ++ post)) = uuid_report t.
+Proof. exact report_window. Qed.
+Print Assumptions C17_pure_window.
+
+(* after any sequence of in-place refills that fit, the k-th answer is the report of the k-th text *)
+Theorem C17_pure_reuse : forall steps b, Model.Base64.steps_fit (length b) steps = true ->
+  answers_in_place uuid_report b steps = map (fun s => uuid_report (snd s)) steps.
+Proof. exact report_pure_reuse. Qed.
+Print Assumptions C17_pure_reuse.
+
+(* ... so when the k-th text spells the UUID u_k (white space, a form in any letter case, white
+   space), the k-th answer is the description of u_k, whatever was in the array before *)
+Theorem C17_reuse_describes : forall steps b us, Model.Base64.steps_fit (length b) steps = true ->
+  Forall2 (fun s u => spells (snd s) u) steps us ->
+  answers_in_place uuid_report b steps = map (fun u => (true, Ok (describe u))) us.
+Proof. exact reuse_describes. Qed.
+Print Assumptions C17_reuse_describes.
+
+(* ... and a text that spells no UUID is answered (not a UUID, error), whatever UUID was there before *)
+Theorem C17_reuse_rejects : forall steps b, Model.Base64.steps_fit (length b) steps = true ->
+  forall k s, nth_error steps k = Some s -> (forall u, ~ spells (snd s) u) ->
+  exists e, nth_error (answers_in_place uuid_report b steps) k = Some (false, Err e).
+Proof. exact reuse_rejects. Qed.
+Print Assumptions C17_reuse_rejects.
+
+(* the hypotheses are met by the sequence of the defect this guards against: a v4, a v7 and a
+   non-UUID of equal length through one 36-byte buffer *)
+Theorem C17_reuse_example :
+  answers_in_place (fun t => i_desc_of (uuid_value t)) (repeat 0 36)
+    [(0%nat, bs "f47ac10b-58cc-4372-a567-0e02b2c3d479"); (0%nat, bs "017f22e2-79b0-7cc3-98c4-dc0c0c07398f");
+     (0%nat, bs "this line is not a UUID at all, ok?!"); (0%nat, bs "017F22E2-79B0-7CC3-98C4-DC0C0C07398F")]
+  = [Some (bs "UUID v4 (random)"); Some (bs "UUID v7 (Unix epoch time)"); None; Some (bs "UUID v7 (Unix epoch time)")].
+Proof. exact reuse_example. Qed.
+Print Assumptions C17_reuse_example.
+
+(* the variants the check runs on very long texts (op long: white-space runs of a megabyte; no
+   unary fuel, no quadratic reversal) are the same functions *)
+Theorem C17_long_texts : forall c data,
+  is_uuid_fast c data = is_uuid_gen c data /\ uuid_value_fast c data = uuid_value_gen c data.
+Proof. exact fast_same. Qed.
+Print Assumptions C17_long_texts.
+
 (* the model and the spec on the RFC 9562 appendix A/B test vectors (examples, not the claim) *)
 Theorem C17_rfc_vectors :
   uuid_value (bs "C232AB00-9414-11EC-B3C8-9E6BDECED846") =
